@@ -51,6 +51,21 @@ func findWalkers(p *Prog) []*Walker {
 	return out
 }
 
+// stringEmptiness: what the decided atoms say about a string being empty
+// (val == "", len(val) == 0, len(val) > 0 forms). Returns 1 empty, 0 non-empty.
+func stringEmptiness(decided func(string) (int, bool), key string) (int64, bool) {
+	if v, ok := decided(`eq("",` + key + `)`); ok {
+		return int64(v), true
+	}
+	if v, ok := decided("eq(0,len(" + key + "))"); ok {
+		return int64(v), true
+	}
+	if v, ok := decided("lt(0,len(" + key + "))"); ok {
+		return int64(1 - v), true
+	}
+	return 0, false
+}
+
 // parentKey strips the last method call of a value key: "x.Index(i)" -> "x"; "" if none.
 func parentKey(key string) string {
 	if strings.HasSuffix(key, ".MapRange().Value()") {
@@ -173,8 +188,8 @@ func exploreWalkOpts(p *Prog, fn *ssa.Function, init map[string]uint32, summaris
 			}
 			if strings.HasPrefix(vk, "reflect.ValueOf(") {
 				inner := strings.TrimSuffix(strings.TrimPrefix(vk, "reflect.ValueOf("), ")")
-				if v, ok := in.Decided(`eq("",` + inner + `)`); ok {
-					zero = int64(v)
+				if z, ok := stringEmptiness(in.Decided, inner); ok {
+					zero = z
 				}
 			}
 			if v, ok := in.Decided("eq(nil," + keyOf(a[0]) + ")"); ok && v == 1 {
